@@ -22,7 +22,8 @@ sys.path.insert(0, str(Path(__file__).resolve().parent.parent / "tools"))
 import gen_schema  # noqa: E402
 
 PROPERTY = "C09"
-LEAN_TARGETS = ["QcelVerif.Props.C09", "QcelVerif.Props.C09Dict", "QcelVerif.Props.C09Hash", "QcelVerif.Props.C09Typed", "QcelVerif.Driver.C09"]
+LEAN_TARGETS = ["QcelVerif.Props.C09", "QcelVerif.Props.C09Dict", "QcelVerif.Props.C09Hash", "QcelVerif.Props.C09Typed",
+                "QcelVerif.Model.ResultValues", "QcelVerif.Model.ResultKwargs", "QcelVerif.Props.C09Models", "QcelVerif.Driver.C09"]
 DRIVER = "QcelVerif/Driver/C09.lean"
 THEOREMS = [
     ("QcelVerif.Schema.emit_conforms", "for every declaration environment, type and in-memory value: hasType v ty -> the JSON emitted for v (unset/None dropped, keys by alias, arrays flattened) validates against schemaOf ty under the generated definitions (any fuel; 3x the typing fuel suffices)"),
@@ -58,12 +59,29 @@ THEOREMS = [
     ("QcelVerif.C09Typed.dict_hasType", "every Molecule object of the constructor model with symbols and geometry set, a schema_name matching its pattern, bonds (if any) non-empty with order in [0,5] and well-typed further entries inhabits the declared type Molecule (hasType at fuel n+4), in any environment whose Molecule entry is that declaration"),
     ("QcelVerif.C09Typed.inv_hasType", "the object the constructor builds from ANY record satisfying the record invariant whose bonds (if any) are non-empty with order in [0,5], whatever the caller's keywords, inhabits the declared type: no per-instance hasType check is needed for molecules"),
     ("QcelVerif.C09Typed.molecule_conforms", "hence (root_conforms) the JSON emitted for every such Molecule validates against the generated root schema of Molecule"),
+    # --- the other five schema-bearing models (Model/ResultValues.lean, Props/C09Models.lean)
+    ("QcelVerif.C09Models.decls_tie", "the hand-written declarations of Identifiers, Provenance, Molecule, HarmonicType, ECPType, ElectronShell, ECPPotential, BasisCenter, BasisSet, DriverEnum, Model, the two protocol enums, ErrorCorrectionProtocol, AtomicResultProtocols, AtomicInput, AtomicResultProperties, WavefunctionProperties, ComputeError, AtomicResult used by the typing theorems ARE the declarations regenerated from the live classes on this run (field names, aliases, types, required flags, allOf wrapping, extra policy, enum members; checked at every build)"),
+    ("QcelVerif.C09Models.provenance_hasType", "every Provenance built from a creator, optional version / routine strings and ANY further keywords (arbitrary values, not shadowing the declared names) inhabits the declared type Provenance, in any environment carrying that declaration"),
+    ("QcelVerif.C09Models.provenance_conforms", "hence (root_conforms) its emitted JSON validates against the generated root schema of Provenance"),
+    ("QcelVerif.C09Models.basis_hasType", "every BasisSet the constructor model accepts (min_items, coefficient-length / fused-contraction / ECP length validators, atom_map keys in center_data, nbf checksum by C20's validateBasis, stripped schema_name) whose shells and potentials are ALSO free of repeated angular momenta and pairwise distinct as emitted JSON (uniq: the hypothesis the published schema adds through uniqueItems) inhabits the declared type BasisSet"),
+    ("QcelVerif.C09Models.basis_conforms", "hence its emitted JSON validates against the generated root schema of BasisSet"),
+    ("QcelVerif.C09Models.basis_uniq_needed", "KNOWN FINDING C09-basis-uniqueItems at BasisSet level: a basis with one fused shell listing angular momentum 0 twice passes every check of the constructor model, fails uniq, and its emitted JSON is rejected by the generated BasisSet schema at every fuel - uniq cannot be dropped; the finding is exactly the gap between ok and ok+uniq"),
+    ("QcelVerif.C09Models.props_hasType", "whenever the validators accept (C20 validateProps: dipoles (3,), quadrupole (3,3), gradients (natom,3), hessians (3natom,3natom)) keywords that are declared int / float / array fields of the right kind (a Python int given for a float field is coerced), the AtomicResultProperties instance inhabits the declared type"),
+    ("QcelVerif.C09Models.props_conforms", "hence its emitted JSON validates against the generated root schema of AtomicResultProperties"),
+    ("QcelVerif.C09Models.atomicInput_hasType", "every AtomicInput built from a well-formed Molecule object (C09Typed.WellFormed + typed identifiers / provenance; any id / extras), a driver, a Model (method, optional basis name or BasisSet keywords meeting ok+uniq, any further attributes), optional keywords / extras (ANY values), protocols (incl. error-correction policies), provenance and a schema_name matching its pattern after strip inhabits the declared type AtomicInput"),
+    ("QcelVerif.C09Models.atomicInput_conforms", "hence its emitted JSON validates against the generated root schema of AtomicInput"),
+    ("QcelVerif.C09Models.atomicResult_hasType", "whenever the validators accept (C20: validateProps, _wavefunction_protocol + WavefunctionProperties validators, return_result reshape per driver; stdout / native_files protocols) a well-formed AtomicResult input (as AtomicInput, plus provenance present, property kinds, supplied arrays of rank >= 1, schema_name one of the two accepted names) whose embedded basis sets meet uniq, the instance inhabits the declared type AtomicResult - all four drivers, wavefunction / protocols / error blocks present or absent, ANY values in keywords / extras / native_files / the dict form of return_result"),
+    ("QcelVerif.C09Models.atomicResult_conforms", "hence its emitted JSON validates against the generated root schema of AtomicResult"),
+    ("QcelVerif.C09Models.wfn_shapes_nonempty", "whatever the wavefunction protocol keeps and the validators reshape (C20's wfnField, unchanged), every array the resulting WavefunctionProperties holds has rank >= 1 if every supplied one had"),
+    ("QcelVerif.C09Models.rank0_array_counterexample", "the rank >= 1 demand is needed where no validator reshapes: a rank-0 localized_fock_a passes C20's validator untouched, is emitted as a bare number, and the schema's type:array rejects it at every fuel"),
     ("QcelVerif.C09Hash.revalidate_same_hash_partial", "PARTIAL: re-validating the sparse dict() has the same hash IF from_schema maps it to a record with the same hash fields and the held geometry, and float_prep is idempotent on it (from_arrays on sparse input is a hypothesis)"),
 ]
 TRANSLATORS = [gen_schema.main]
 TRUSTED_BASE = [
     "Lean 4.33 kernel; axioms of every theorem audited on every run (subset of propext, Classical.choice, Quot.sound)",
     "pydantic-v1 (validation/coercion producing the in-memory instance; Model.schema() generation) is a PARAMETER: hand model schemaOf/declSchema of its generation rules for the occurring subset, tied per run by `declSchema(env) = exported` (Lean driver op `tie`) and by hasType on every generated instance",
+    "hand-written constructor models Model/ResultValues.lean of Provenance, BasisSet (ElectronShell, ECPPotential, BasisCenter), AtomicResultProperties, AtomicInput (Model, AtomicResultProtocols, ErrorCorrectionProtocol, Identifiers, the Molecule OBJECT) and AtomicResult (WavefunctionProperties, ComputeError): what pydantic + the validators of basis.py / results.py / common_models.py leave in the set fields for well-formed keywords (int -> float coercion, strip / cast of schema_name, nbf checksum, array reshapes and the wavefunction / stdout / native_files protocols through C20's Model/Protocols.lean, reused unchanged). Tied per instance by the driver op `build`: the keywords of every generated instance (Model/ResultKwargs.lean decodes them; strict) -> ok must hold, emit(value(keywords)) must equal Model.json(exclude_unset, exclude_none) exactly (ints and floats apart), uniq must hold exactly when no uniqueItems keyword fails under python-jsonschema, ok & uniq must give hasType and a valid document. Array SHAPES are not part of the emitted JSON and are tied by C20, not here",
+    "in the `build` keywords the harness (norm_kwargs) converts numeric strings / ints of basis exponents and coefficients with CPython float() (pydantic's str -> float coercion is float(); not modelled), array keywords with np.asarray(dtype=float), and replaces the molecule keywords of AtomicInput / AtomicResult by the Molecule object the instance holds (how keywords become that object is Model/MolDict.lean, tied by the op `construct`)",
     "tools/gen_schema.py: re-encodes Model.__fields__ as Ty terms and Model.schema() as Schema terms; drops annotation keywords (title, description, default, shape, units, $schema); picks the two schema_extra edit forms of models/basis.py from the exported schema (recorded in evidence)",
     "hand-written models Model/Schema.lean (emit = ProtoModel.dict + pydantic _iter + JSONArrayEncoder; Draft-04 validator for the occurring keywords; tiny matcher for the three `^(…)$` patterns) and Model/MolSchema.lean (to_schema.py:40-112, from_schema.py:27-190), tied by differential correspondence incl. perturbed (invalid) documents against python-jsonschema",
     "hand-written model Model/MolDict.lean of Molecule.__init__ / _filter_defaults / {**kwargs, **schema} / dict() / the accessors (molecule.py:334-384, 449-509, 592-595, 1489-1513), tied by the driver op `construct` on generated keywords: the 19 modelled dict() entries exactly (geometry through the exact model of np.around: rndDouble products/quotients, zero band), the remaining keys (schema_name/version, provenance, extras, identifiers, id) by a rule stated in harness/c09.py:check_construct, and Molecule(**mol.dict()).dict() == mol.dict(); the embedding MolDict.molVal of that object as an in-memory value is tied by emit(molVal) == Molecule.json() (provenance/extras/identifiers/id aside) and hasType = T on every construction; pydantic's coercions (list -> ndarray, int -> float) are the identity on exact values and are not represented",
@@ -77,6 +95,7 @@ ASSUMPTIONS = [
     "instances are built through the public constructors (validation on), plus Molecule(validate=False) on already valid data; 0-atom molecules do not exist (from_arrays refuses them)",
     "to_schema with units='Bohr' and dtype 1 or 2 (dtype 'psi4' and Angstrom export are outside C09)",
     "np_out only changes container types and is not represented in the Lean model (both settings are compared by the harness)",
+    "Model/ResultValues.lean: keyword input as the generators produce it - declared keywords of the declared kind (str / int / float-or-int / bool / enum member / list / dict), nested models as keyword dicts, array keywords of rank >= 1 (a rank-0 value for the one unreshaped array field pair localized_fock_a/b is accepted by the constructor and emitted as a bare number: rank0_array_counterexample; not generated), ASCII whitespace / case in schema_name, str dict keys; a keyword given as None for an Optional field is read as absent; WavefunctionProperties pointers (orbitals_a, ...) name array fields; instances passed as already-built sub-model objects other than the molecule are outside the constructor models (the generic `conf` check still covers them)",
     "Model/MolDict.lean: validating construction with orient=False, schema_version 2 (version 1 has no nested 'molecule' entry: KeyError, modelled; other versions: ValidationError), ASCII symbols; orient=True, geometry_noise != 8, nonphysical=True and Molecule(validate=False) without a validated flag are outside the model; Molecule-level hash theorem for dtype 2 (a dtype-1 dictionary is not a Molecule keyword set; dtype 1 is covered at record level)",
 ]
 RULE = (
@@ -91,7 +110,10 @@ RULE = (
     "spells out - masses, real, atom_labels, atomic/mass numbers, one all-atom fragment -, masses within 1e-5..1e-7 of the defaults, "
     "lower/upper-case symbols, coordinates inside/at the edge of float_prep's zero band and beyond the 8th decimal, validated=False, "
     "schema_version 1/3 refusals) -> dict() keys and values vs the model, Molecule(**dict()).dict() identical. A case is distinct by (model, set of emitted key paths, array ranks) or by "
-    "(outcome class, fragment shape) and non-trivial when it has an optional block, an alias, an array, or is refused."
+    "(outcome class, fragment shape) and non-trivial when it has an optional block, an alias, an array, or is refused. Every generated instance of the "
+    "five non-Molecule models also goes through the constructor models (op `build`, from its KEYWORDS); Any / Dict[str, Any] slots (keywords, extras, "
+    "Provenance / Model extra attributes, native_files, ComputeError.extras, Molecule.id, the dict form of return_result) carry nested random values "
+    "(None inside dicts and lists, lists of dicts, ndarrays, ints next to floats, non-ASCII / empty keys)."
 )
 LEVEL_TEXT = (
     "proof, partial: conformance is proved for every value of every declared type against the generated schema, and the generated "
@@ -104,7 +126,12 @@ LEVEL_TEXT = (
     "plus two checked-per-case provisos (agreesB, singleOkB) and with to_mass / float_prep / SHA-1 / float printing as parameters. Still "
     "partial / differential only: re-validation of the sparse dict() (from_arrays on sparse input is a hypothesis), the from_data and json "
     "routes, orient=True. hasType: proved for every validated Molecule (inv_hasType, so emit_conforms applies to all of them without a per-instance "
-    "check; the hand declaration is re-tied to the regenerated one at every build); for the other five models it is still checked per instance."
+    "check; the hand declaration is re-tied to the regenerated one at every build). For the other five models hasType and conformance are now PROVED for "
+    "every well-formed keyword input of the constructor models (provenance_/basis_/props_/atomicInput_/atomicResult_hasType and _conforms; values in Any slots "
+    "arbitrary; declarations re-tied by decls_tie at every build; array shapes by C20's shape model); BasisSet and the two models embedding one need the "
+    "explicit uniqueness hypothesis uniq, proved necessary (basis_uniq_needed = known finding C09-basis-uniqueItems). What stays differential for them: that "
+    "pydantic + the validators really produce value(keywords) (tied per generated instance by emit(value) == Model.json()), float(str) of basis numbers, and "
+    "instances built from sub-model OBJECTS instead of keywords (still covered per instance by the generic conf/hasType check)."
 )
 TECHNIQUE = "Lean 4 proof (structural/fuel induction over a type language and a Draft-04 validator; list lemmas for np.split) + per-run schema tie + differential correspondence against pydantic/jsonschema"
 
@@ -577,6 +604,9 @@ def gen_result(rng, driver):
         kw["return_result"] = [rfloat(rng) for _ in range(9 * nat * nat)]
     else:
         kw["return_result"] = rng.choice([{}, {"dipole": [0.0, 0.1, 0.2], "n": 3, "nested": {"a": None}}, {"mulliken": {"__nd__": [0.1, -0.1]}}, rfloat(rng)])
+        if rng.random() < 0.4:
+            # Dict[str, Any]: arbitrary nested values (None inside, lists of dicts, ndarrays, ints next to floats)
+            kw["return_result"] = {rng.choice(WORDS) + str(i): rany(rng) for i in range(rng.randint(1, 3))}
     if rng.random() < 0.45:
         wfnp = rng.choice(["all", "orbitals_and_eigenvalues", "occupations_and_eigenvalues", "return_results", "none", None])
         kw["wavefunction"] = gen_wavefunction(rng, nat)
@@ -589,7 +619,7 @@ def gen_result(rng, driver):
     if rng.random() < 0.3:
         kw["stderr"] = rng.choice(["", "warn", None])
     if rng.random() < 0.4:
-        kw["native_files"] = {k: rng.choice(["text", None]) for k in rng.sample(["input", "out.dat", "grid"], rng.randint(0, 2))}
+        kw["native_files"] = {k: (rany(rng) if rng.random() < 0.3 else rng.choice(["text", None])) for k in rng.sample(["input", "out.dat", "grid"], rng.randint(0, 2))}
     kw["success"] = rng.random() < 0.8
     if rng.random() < 0.25:
         err = {"error_type": rng.choice(["input_error", "random_error"]), "error_message": rng.choice(WORDS)}
@@ -807,21 +837,33 @@ def check_instances(ctx: Ctx, out: Outcome, items):
         except Exception as e:
             out.violations.append(Finding("oracle:emit_raises", case, observed=err_class(e) + ": " + str(e)[:200], detail="json(exclude_unset, exclude_none) raised on a valid instance"))
             continue
-        built.append((stream, model, case, inst, doc, line))
+        bline = None
+        if model in BUILD_MODELS:
+            try:
+                bline = build_line(model, kw, inst)
+            except Exception as e:  # keywords the encoder cannot carry: counted, not silently passed
+                out.count("build_unencodable:" + model + ":" + type(e).__name__)
+        built.append((stream, model, case, inst, doc, line, bline))
     lines = [b[5] for b in built]
+    blines = [(bi, b[6]) for bi, b in enumerate(built) if b[6] is not None]
     # perturbed documents
     pert = []
-    for bi, (stream, model, case, inst, doc, _) in enumerate(built):
+    for bi, (stream, model, case, inst, doc, _, _b) in enumerate(built):
         for _ in range(rng.choice([3, 4, 6])):
             kind, d2 = perturb(rng, doc)
             try:
                 pert.append((bi, kind, d2, f"val|{model}|{enc_json(d2)}"))
             except Unsupported:
                 pass
-    model_out = [None] * (len(lines) + len(pert))
+    model_out = [None] * (len(lines) + len(pert) + len(blines))
     if ctx.model_available:
-        model_out = ctx.run_model(DRIVER, lines + [p[3] for p in pert])
-    for (stream, model, case, inst, doc, _), ml in zip(built, model_out[: len(lines)]):
+        model_out = ctx.run_model(DRIVER, lines + [p[3] for p in pert] + [b[1] for b in blines])
+    for (bi, _bl), ml in zip(blines, model_out[len(lines) + len(pert):]):
+        stream, model, case, inst, doc, _l, _b = built[bi]
+        if ml is not None:
+            out.evaluations += 1
+            check_build(out, model, case, doc, first_error(model, doc), ml)
+    for (stream, model, case, inst, doc, _, _b), ml in zip(built, model_out[: len(lines)]):
         e = first_error(model, doc)
         kind = classify_conformance(model, e)
         out.nontrivial(shape_key(model, doc))
@@ -853,8 +895,8 @@ def check_instances(ctx: Ctx, out: Outcome, items):
         if ht == "F" and e is None:
             out.mismatches.append(Finding("mismatch:hasType", case, observed="instance valid under jsonschema", detail="runtime value does not inhabit the declared (extracted) type"))
         out.count(f"hasType={ht},valid={vv}")
-    for (bi, kind, d2, _), ml in zip(pert, model_out[len(lines) :]):
-        stream, model, case, inst, doc, _l = built[bi]
+    for (bi, kind, d2, _), ml in zip(pert, model_out[len(lines) : len(lines) + len(pert)]):
+        stream, model, case, inst, doc, _l, _b = built[bi]
         ok = schemas()[model][1].is_valid(d2)
         out.evaluations += 1
         out.count(f"perturb:{kind}:{'valid' if ok else 'invalid'}")
@@ -862,6 +904,107 @@ def check_instances(ctx: Ctx, out: Outcome, items):
             e2 = first_error(model, d2)
             out.mismatches.append(Finding("mismatch:validate_perturbed", {"stream": "document", "model": model, "document": d2}, observed="jsonschema " + ("valid" if ok else "invalid: " + (e2.message[:200] if e2 else "")), expected="lean " + ml, detail=f"validators disagree on a perturbed ({kind}) document"))
     return built
+
+
+# ------------------------------------------------------------------------------------------------------
+# constructor models of the five non-Molecule models (Model/ResultValues.lean, driver op `build`)
+
+BUILD_MODELS = ("Provenance", "BasisSet", "AtomicResultProperties", "AtomicInput", "AtomicResult")
+PROP_ARRAYS = {"return_gradient", "return_hessian", "scf_dipole_moment", "scf_quadrupole_moment", "scf_total_gradient", "scf_total_hessian",
+               "mp2_dipole_moment", "ccsd_dipole_moment", "ccsd_prt_pr_dipole_moment", "ccsdt_dipole_moment", "ccsdtq_dipole_moment"}
+WFN_ARRAYS = {b + s for b in ("h_core", "h_effective", "scf_orbitals", "scf_density", "scf_fock", "scf_eigenvalues", "scf_occupations",
+                              "scf_coulomb", "scf_exchange", "localized_orbitals", "localized_fock") for s in ("_a", "_b")}
+
+
+def _farr(v):
+    return np.asarray(v, dtype=float)
+
+
+def norm_basis(b):
+    """keyword form the Lean decoder reads: List[float] entries as the float pydantic stores (float(str), float(int))"""
+    b = dict(b)
+    cd = {}
+    for name, c in b["center_data"].items():
+        c = dict(c)
+        shells = []
+        for sh in c["electron_shells"]:
+            sh = dict(sh)
+            sh["exponents"] = [float(x) for x in sh["exponents"]]
+            sh["coefficients"] = [[float(x) for x in row] for row in sh["coefficients"]]
+            shells.append(sh)
+        c["electron_shells"] = shells
+        if c.get("ecp_potentials") is not None:
+            eps = []
+            for e in c["ecp_potentials"]:
+                e = dict(e)
+                e["gaussian_exponents"] = [float(x) for x in e["gaussian_exponents"]]
+                e["coefficients"] = [[float(x) for x in row] for row in e["coefficients"]]
+                eps.append(e)
+            c["ecp_potentials"] = eps
+        cd[name] = c
+    b["center_data"] = cd
+    return b
+
+
+def norm_kwargs(model, kw, inst):
+    """revived constructor keywords -> what `build|<model>|…` carries (see lean/QcelVerif/Model/ResultKwargs.lean):
+    array keywords as float ndarrays, basis numbers as floats, the molecule as the Molecule OBJECT the instance holds
+    (how a Molecule is built from keywords is Model/MolDict.lean's business), everything else untouched."""
+    kw = revive(copy.deepcopy(kw))
+    if model == "BasisSet":
+        return norm_basis(kw)
+    if model == "AtomicResultProperties":
+        return {k: (_farr(v) if k in PROP_ARRAYS and v is not None else v) for k, v in kw.items()}
+    if model in ("AtomicInput", "AtomicResult"):
+        kw["molecule"] = inst.molecule
+        m = dict(kw["model"])
+        if isinstance(m.get("basis"), dict):
+            m["basis"] = norm_basis(m["basis"])
+        kw["model"] = m
+        if model == "AtomicResult":
+            kw["properties"] = norm_kwargs("AtomicResultProperties", kw["properties"], None)
+            if isinstance(kw.get("wavefunction"), dict):
+                w = dict(kw["wavefunction"])
+                w["basis"] = norm_basis(w["basis"])
+                for k in list(w):
+                    if k in WFN_ARRAYS and w[k] is not None:
+                        w[k] = _farr(w[k])
+                kw["wavefunction"] = w
+            if isinstance(kw["return_result"], (list, np.ndarray)):
+                kw["return_result"] = _farr(kw["return_result"])
+    return kw
+
+
+def build_line(model, kw, inst):
+    return f"build|{model}|{enc_val(norm_kwargs(model, kw, inst))}"
+
+
+def check_build(out: Outcome, model, case, doc, e, ml):
+    """one `build` answer of the driver against the implementation's emitted JSON `doc` (jsonschema error `e` or None).
+    The constructor accepted the keywords, so: the model's `ok` holds and its validators accept; emit(value) is the JSON;
+    `uniq` holds exactly when no uniqueItems keyword fails; ok & uniq -> hasType and valid (the theorems, per instance)."""
+    parts = ml.split(" ", 5)
+    if parts[0] == "refused" or parts[0] == "bad-op" or len(parts) != 6 or parts[0] != "ok":
+        out.mismatches.append(Finding("mismatch:build", case, observed="constructor accepted", expected=ml[:200], detail="the constructor model refuses / cannot read keywords the implementation accepted"))
+        return
+    _, okf, uq, ht, vv, js = parts
+    out.count(f"build:{model}:ok={okf},uniq={uq},hasType={ht},valid={vv}")
+    if okf != "T":
+        out.mismatches.append(Finding("mismatch:build_wf", case, observed="constructor accepted", expected="input.ok = false", detail="the model's well-formedness predicate rejects keywords the implementation accepted"))
+    try:
+        mj = parse_model_json(js)
+    except Exception as ex:
+        out.mismatches.append(Finding("mismatch:build_emit", case, observed=str(ex), detail="model emit not parseable"))
+        return
+    if mj != canon(doc):
+        out.mismatches.append(Finding("mismatch:build_emit", case, observed=text_short(doc), expected=js[:400], detail="Model.json(exclude_unset, exclude_none) differs from emit(value(keywords)) of the constructor model (first differing key: %s)" % first_diff(mj, canon(doc))))
+    uniq_fail = e is not None and list(e.absolute_schema_path)[-1:] == ["uniqueItems"]
+    if uq == "T" and okf == "T" and (ht != "T" or vv != "T" or e is not None):
+        out.mismatches.append(Finding("mismatch:build_theorem_instance", case, observed=("jsonschema: " + e.message[:200]) if e is not None else f"hasType={ht} validate={vv}", expected="ok & uniq -> hasType, valid", detail="a well-formed input whose value does not inhabit the type / does not validate (contradicts <model>_hasType / _conforms unless the tie is broken)"))
+    if uq == "F" and not uniq_fail:
+        out.mismatches.append(Finding("mismatch:build_uniq", case, observed="no uniqueItems failure under jsonschema" + ("" if e is None else ": " + e.message[:120]), expected="input.uniq = false", detail="the model's uniqueness hypothesis fails but the published schema's uniqueItems does not"))
+    if uq == "T" and uniq_fail:
+        out.mismatches.append(Finding("mismatch:build_uniq", case, observed="uniqueItems fails under jsonschema", expected="input.uniq = true", detail="the published schema's uniqueItems fails but the model's uniqueness hypothesis holds"))
 
 
 def text_short(doc):
@@ -1726,14 +1869,56 @@ def paths_all(doc, pre=()):
             yield from paths_all(v, pre + (i,))
 
 
+KNOWN_KIND_RANK0 = "oracle:conformance_rank0_array"
+
+
+def rank0_stream(ctx: Ctx, out: Outcome):
+    """The one Array field of WavefunctionProperties without a reshaping validator (localized_fock_a/b, declared nmo x nmo): a
+    rank-0 value is accepted and emitted as a bare number, which the published schema (type: array) rejects.  Proved on the model as
+    C09Models.rank0_array_counterexample; a genuine defect of the unchanged library, recorded (C09-rank0-localized-fock).  A few cases
+    per run, reported under their own kind so that the recorded class stays narrow."""
+    import qcelemental as qcel
+
+    rng = ctx.rng
+    for _ in range(ctx.scale(4, 20)):
+        for attempt in range(20):
+            kw = gen_result(rng, rng.choice(["energy", "gradient"]))
+            if isinstance(kw.get("wavefunction"), dict) and kw["wavefunction"].get("basis") is not None:
+                break
+        else:
+            continue
+        which = rng.choice(["localized_fock_a", "localized_fock_b"])
+        kw = copy.deepcopy(kw)
+        kw["wavefunction"][which] = rng.choice([5.0, 0.25, -1.5])
+        kw["wavefunction"]["restricted"] = False
+        kw.setdefault("protocols", {})
+        kw["protocols"] = dict(kw["protocols"], wavefunction="all")
+        case = {"stream": "rank0", "model": "AtomicResult", "kwargs": kw, "field": which}
+        try:
+            inst = build("AtomicResult", kw, {})
+            doc = json.loads(inst.json(exclude_unset=True, exclude_none=True))
+        except Exception as e:  # noqa -- refused: the recorded class is gone (a validator landed); nothing to report
+            out.count("rank0:refused_or_unbuildable:" + err_class(e))
+            continue
+        out.evaluations += 1
+        out.count("rank0:accepted")
+        e = first_error("AtomicResult", doc)
+        if e is not None:
+            path = [str(x) for x in e.absolute_path]
+            kind = KNOWN_KIND_RANK0 if (path[-2:] == ["wavefunction", which] and e.validator == "type" and not isinstance(doc["wavefunction"][which], list)) else "oracle:conformance"
+            out.violations.append(Finding(kind, case, observed={"path": path, "validator": e.validator, "emitted": doc.get("wavefunction", {}).get(which)}, expected="validates",
+                                          detail=f"rank-0 {which} is emitted as a bare number; the published schema demands an array"))
+
+
 def run(ctx: Ctx) -> Outcome:
     out = Outcome()
     tie_and_wf(ctx, out)
+    rank0_stream(ctx, out)
     pattern_stream(ctx, out)
     items = list(gen_instances(ctx))
     built = check_instances(ctx, out, items)
     nmol = 0
-    for stream, model, case, inst, doc, _ in built:
+    for stream, model, case, inst, doc, _, _b in built:
         if model == "Molecule" and nmol < ctx.scale(150, 1500):
             nmol += 1
             check_molecule_rebuild(ctx, out, inst, case)
@@ -1749,7 +1934,7 @@ def replay(ctx: Ctx, case) -> Outcome:
     stream = case.get("stream") if isinstance(case, dict) else None
     if stream == "instance":
         built = check_instances(ctx, out, [("replay", case["model"], case["kwargs"], dict(case.get("flags") or {}, **({"__prior_calls": case["prior_calls"]} if case.get("prior_calls") else {})))])
-        for _s, model, c, inst, _d, _l in built:
+        for _s, model, c, inst, _d, _l, _b in built:
             if model == "Molecule":
                 check_molecule_rebuild(ctx, out, inst, c)
     elif stream == "molrec":
@@ -1766,6 +1951,8 @@ def replay(ctx: Ctx, case) -> Outcome:
         out.evaluations += 1
         if ml is not None and ml != ("T" if ok else "F"):
             out.mismatches.append(Finding("mismatch:validate_perturbed", case, observed="jsonschema " + str(ok), expected="lean " + ml))
+    elif stream == "rank0":
+        rank0_stream(ctx, out)
     elif stream == "pattern":
         pattern_stream(ctx, out)
     else:
@@ -1775,6 +1962,11 @@ def replay(ctx: Ctx, case) -> Outcome:
 
 def known_predicate(finding: Finding, entry) -> bool:
     """C09-basis-uniqueItems: only a jsonschema failure on a `uniqueItems` keyword, only for the models that embed a BasisSet."""
+    if entry.get("id") == "C09-rank0-localized-fock":
+        o = finding.observed or {}
+        c = finding.case or {}
+        return (finding.kind == KNOWN_KIND_RANK0 and c.get("stream") == "rank0" and c.get("field") in ("localized_fock_a", "localized_fock_b")
+                and o.get("validator") == "type" and (o.get("path") or [])[-2:] == ["wavefunction", c.get("field")] and not isinstance(o.get("emitted"), list))
     if entry.get("id") != "C09-basis-uniqueItems" or finding.kind != KNOWN_KIND:
         return False
     obs = finding.observed or {}
